@@ -2,6 +2,7 @@ use crate::generators::Generator;
 use crate::generators::Generators;
 use crate::random::RandomProvider;
 use crate::random::ResponseError;
+use apollo_compiler::ast::Type;
 use apollo_compiler::executable::Field;
 use apollo_compiler::executable::Selection;
 use apollo_compiler::executable::SelectionSet;
@@ -313,42 +314,43 @@ impl<'a, 'doc, 'schema, R: RandomProvider> ResponseBuilder<'a, 'doc, 'schema, R>
         fields: &[Node<Field>],
         meta_field: &Node<Field>,
     ) -> Result<Value, ResponseError> {
-        let has_selection_set = !meta_field.selection_set.is_empty();
-        let is_list = meta_field.ty().is_list();
-
-        if has_selection_set {
-            // Merge sub-selections from all occurrences of this field
-            let mut merged_selections = Vec::new();
-            for field in fields {
-                merged_selections.extend_from_slice(&field.selection_set.selections);
-            }
-            let full_selection_set = SelectionSet {
-                ty: meta_field.selection_set.ty.clone(),
-                selections: merged_selections,
-            };
-
-            if is_list {
-                self.repeated_selection_set(&full_selection_set)
-            } else {
-                self.selection_set(&full_selection_set)
-            }
-        } else if is_list {
-            self.repeated_leaf_field(meta_field.ty().inner_named_type())
-        } else {
-            self.leaf_field(meta_field.ty().inner_named_type())
-        }
+        self.generate_value_of_type(fields, meta_field, meta_field.ty())
     }
 
-    fn repeated_selection_set(
+    /// Generate a value of type `ty` for a field group: one JSON array per list level of the
+    /// type, then a leaf or an object for the named type.
+    fn generate_value_of_type(
         &mut self,
-        selection_set: &SelectionSet,
+        fields: &[Node<Field>],
+        meta_field: &Node<Field>,
+        ty: &Type,
     ) -> Result<Value, ResponseError> {
-        let num_values = self.arbitrary_len()?;
-        let mut values = Vec::with_capacity(num_values);
-        for _ in 0..num_values {
-            values.push(self.selection_set(selection_set)?);
+        match ty {
+            Type::List(inner) | Type::NonNullList(inner) => {
+                let num_values = self.arbitrary_len()?;
+                let mut values = Vec::with_capacity(num_values);
+                for _ in 0..num_values {
+                    values.push(self.generate_value_of_type(fields, meta_field, inner)?);
+                }
+                Ok(Value::Array(values))
+            }
+            Type::Named(name) | Type::NonNullNamed(name) => {
+                if meta_field.selection_set.is_empty() {
+                    self.leaf_field(name)
+                } else {
+                    // Merge sub-selections from all occurrences of this field
+                    let mut merged_selections = Vec::new();
+                    for field in fields {
+                        merged_selections.extend_from_slice(&field.selection_set.selections);
+                    }
+                    let full_selection_set = SelectionSet {
+                        ty: meta_field.selection_set.ty.clone(),
+                        selections: merged_selections,
+                    };
+                    self.selection_set(&full_selection_set)
+                }
+            }
         }
-        Ok(Value::Array(values))
     }
 
     /// Like [`selection_set`][Self::selection_set], but with a fixed concrete type and an
@@ -461,15 +463,6 @@ impl<'a, 'doc, 'schema, R: RandomProvider> ResponseBuilder<'a, 'doc, 'schema, R>
             ExtendedType::Scalar(scalar) => self.generators.generate_scalar(&scalar.name, self.rng),
             _ => unreachable!("A field with an empty selection set must be a scalar or enum type"),
         }
-    }
-
-    fn repeated_leaf_field(&mut self, type_name: &Name) -> Result<Value, ResponseError> {
-        let num_values = self.arbitrary_len()?;
-        let mut values = Vec::with_capacity(num_values);
-        for _ in 0..num_values {
-            values.push(self.leaf_field(type_name)?);
-        }
-        Ok(Value::Array(values))
     }
 
     fn arbitrary_len(&mut self) -> Result<usize, ResponseError> {
